@@ -15,6 +15,11 @@ from . import _an
 PROP = "C06"
 GEN_REGIONS = ["Attrs"]
 THEOREMS = {
+    # calibration for polynomial detrending (orders 1, 2; any basis Q, any window with positive sum, any segment length and bin position):
+    # on-peak power within (2r + r^2) of (A/2)^2 S1^2 with r = rho + 2 sum_k C_k(w0) |B_k(w0)| / S1 — the order-0 bound is its p1 = 1 instance
+    "SpecKitV.Lemmas.CalibPoly": ["segDFT_poly_eq", "proj_coeff_bound", "basis_coeff_le_sqrt", "basisT_le_sqrt", "calibration_core",
+                                  "calibration_bound_poly", "calibration_bound_poly_sqrt", "power_spectrum_calibrated_poly",
+                                  "calibration_bound_order0_of_poly", "orthoCols_Q4"],
     "SpecKitV.Lemmas.Sinusoid": ["segDFT_raw_toC", "sinusoid_identity", "calibration_bound", "power_spectrum_calibrated",
                                  "winT_le_sum", "winT_zero"],
     # the library default, order 0 (mean removal): the bound the oracle uses, r = rho + 2*rho0
